@@ -502,11 +502,27 @@ def lift_conditionals(paths, limit=64):
     return keep
 
 
+def alpha(t):
+    """rename bound variables by order of first occurrence (terms equal up to the numbering of their bound variables)"""
+    mapping = {}
+
+    def rec(x):
+        if not isinstance(x, tuple):
+            return x
+        if len(x) == 2 and x[0] == "bound":
+            if x[1] not in mapping:
+                mapping[x[1]] = len(mapping) + 1
+            return ("bound", mapping[x[1]])
+        return tuple(rec(y) for y in x)
+    return rec(t)
+
+
 def compare_paths(got, want):
     """-> 'equal' | 'different' (same skeleton, different content) | 'incomparable'"""
     if got == want:
         return "equal"
     got, want = lift_conditionals(got), lift_conditionals(want)
+    got, want = [alpha(p) for p in got], [alpha(p) for p in want]
     if got == want or sorted(got, key=repr) == sorted(want, key=repr):
         return "equal"
     if len(got) == len(want) and all(skeleton(a) == skeleton(b) for a, b in zip(got, want)):
